@@ -32,6 +32,9 @@ type metaLint interface {
 	clone() metaLint
 	kind() seeds.Kind
 	desc() string
+	setSource(s lint.LintSource)
+	source() lint.LintSource
+	setBody(warn bool) // swap the constructor: the rule body returns warn instead of error
 }
 
 type mlOld struct{ l *lint.Lint }
@@ -79,7 +82,45 @@ func (winOld) Execute(*x509.Certificate) *lint.LintResult {
 
 var _ = ocsp.Good
 
+func (m mlOld) setSource(x lint.LintSource) { m.l.Source = x }
+func (m mlOld) source() lint.LintSource     { return m.l.Source }
+func (m mlOld) setBody(w bool) {
+	if w {
+		m.l.Lint = func() lint.LintInterface { return winOldWarn{} }
+	} else {
+		m.l.Lint = func() lint.LintInterface { return winOld{} }
+	}
+}
+func (m mlCert) setSource(x lint.LintSource) { m.l.Source = x }
+func (m mlCert) source() lint.LintSource     { return m.l.Source }
+func (m mlCert) setBody(w bool) {
+	if w {
+		m.l.Lint = func() lint.CertificateLintInterface { return winOldWarn{} }
+	} else {
+		m.l.Lint = func() lint.CertificateLintInterface { return winCert{} }
+	}
+}
+func (m mlCRL) setSource(x lint.LintSource)  { m.l.Source = x }
+func (m mlCRL) source() lint.LintSource      { return m.l.Source }
+func (m mlCRL) setBody(w bool)               {}
+func (m mlOCSP) setSource(x lint.LintSource) { m.l.Source = x }
+func (m mlOCSP) source() lint.LintSource     { return m.l.Source }
+func (m mlOCSP) setBody(w bool)              {}
+
+type winOldWarn struct{}
+
+func (winOldWarn) CheckApplies(*x509.Certificate) bool { return true }
+func (winOldWarn) Execute(*x509.Certificate) *lint.LintResult {
+	return &lint.LintResult{Status: lint.Warn, Details: "ran (second body)"}
+}
+
 func c03MetaHistories(ctx *core.Ctx, rep *core.Report, sel []seeds.Seed) {
+	metaHistories(ctx, rep, sel, "C03", false)
+}
+
+// metaHistories with withSource (C04): the struct's Source and constructor are edited in place as well — the scope gate and
+// the rule body must be those the struct carries NOW (out of scope ⇒ NA, otherwise the current body's verdict).
+func metaHistories(ctx *core.Ctx, rep *core.Report, sel []seeds.Seed, prop string, withSource bool) {
 	e1 := time.Date(2020, 3, 1, 12, 0, 0, 0, time.UTC)
 	e2 := time.Date(2021, 3, 1, 12, 0, 0, 0, time.UTC)
 	i1 := time.Date(2022, 9, 1, 0, 0, 0, 0, time.FixedZone("+02", 7200))
@@ -123,6 +164,20 @@ func c03MetaHistories(ctx *core.Ctx, rep *core.Report, sel []seeds.Seed) {
 		ops = append(ops, op{kind: "set", w: w})
 	}
 	ops = append(ops, op{kind: "copy"})
+	if withSource {
+		// fewer instants, but sources and bodies
+		instants = []time.Time{e1.Add(-time.Second), e1, date(2021, 6, 1), i1}
+		windows = windows[:4]
+		ops = ops[:0]
+		for w := range windows {
+			ops = append(ops, op{kind: "set", w: w})
+		}
+		ops = append(ops, op{kind: "copy"})
+		for si := range metaSources {
+			ops = append(ops, op{kind: "src", w: si})
+		}
+		ops = append(ops, op{kind: "body", w: 0}, op{kind: "body", w: 1})
+	}
 	for _, t := range instants {
 		ops = append(ops, op{kind: "run", t: t})
 	}
@@ -142,7 +197,7 @@ func c03MetaHistories(ctx *core.Ctx, rep *core.Report, sel []seeds.Seed) {
 				continue
 			}
 			if ctx.Expired() {
-				rep.Cap("C03 metadata histories: deadline at history %d of %d (struct type %d)", n, total, fi)
+				rep.Cap(prop+" metadata histories: deadline at history %d of %d (struct type %d)", n, total, fi)
 				return
 			}
 			seq := make([]op, depth)
@@ -156,6 +211,7 @@ func c03MetaHistories(ctx *core.Ctx, rep *core.Report, sel []seeds.Seed) {
 			if obj == nil {
 				break
 			}
+			bodyWarn := map[metaLint]bool{}
 			var held []metaLint // earlier copies: run once more at the end
 			var hist []string
 			check := func(m metaLint, t time.Time, when string) {
@@ -175,11 +231,17 @@ func c03MetaHistories(ctx *core.Ctx, rep *core.Report, sel []seeds.Seed) {
 				want := lint.NE
 				if refInWindow(eff, ineff, t) {
 					want = lint.Error
+					if bodyWarn[m] {
+						want = lint.Warn
+					}
+				}
+				if withSource && m.kind() == seeds.Cert && !inScope(m.source(), obj.Cert) {
+					want = lint.NA
 				}
 				if r.Status != want {
-					rep.Violate("C03|metadata_history|"+m.kind().String()+"|"+want.String()+"~"+r.Status.String(),
-						fmt.Sprintf("%s carrying the window [%s, %s) run on an always-applicable object dated %s %s: got %s, the window it carries says %s [history: %v]",
-							m.desc(), fmtDate(eff), fmtDate(ineff), t.Format(time.RFC3339), when, r.Status, want, hist),
+					rep.Violate(prop+"|metadata_history|"+m.kind().String()+"|"+want.String()+"~"+r.Status.String(),
+						fmt.Sprintf("%s carrying source %s and the window [%s, %s) run on an always-applicable object dated %s %s: got %s, what the struct carries now says %s [history: %v]",
+							m.desc(), m.source(), fmtDate(eff), fmtDate(ineff), t.Format(time.RFC3339), when, r.Status, want, hist),
 						map[string]interface{}{"op": "metadata_history", "struct": m.desc(), "history": hist})
 				}
 			}
@@ -190,8 +252,19 @@ func c03MetaHistories(ctx *core.Ctx, rep *core.Report, sel []seeds.Seed) {
 					hist = append(hist, fmt.Sprintf("set window [%s, %s)", fmtDate(windows[o.w][0]), fmtDate(windows[o.w][1])))
 				case "copy":
 					held = append(held, cur)
+					w := bodyWarn[cur]
 					cur = cur.clone()
+					bodyWarn[cur] = w
 					hist = append(hist, "copy the struct, continue on the copy")
+				case "src":
+					cur.setSource(metaSources[o.w])
+					hist = append(hist, "set source "+string(metaSources[o.w]))
+				case "body":
+					if cur.kind() == seeds.Cert {
+						cur.setBody(o.w == 1)
+						bodyWarn[cur] = o.w == 1
+						hist = append(hist, fmt.Sprintf("swap the constructor (body returns warn: %v)", o.w == 1))
+					}
 				case "run":
 					hist = append(hist, "run @"+o.t.Format(time.RFC3339))
 					check(cur, o.t, "")
@@ -208,3 +281,5 @@ func c03MetaHistories(ctx *core.Ctx, rep *core.Report, sel []seeds.Seed) {
 		}
 	}
 }
+
+var metaSources = []lint.LintSource{lint.Community, lint.CABFBaselineRequirements, lint.CABFSMIMEBaselineRequirements, lint.CABFCSBaselineRequirements}
